@@ -123,6 +123,28 @@ impl Res {
         }
         None
     }
+    /// every token movement of the response, in order: (denom or cw20 contract, recipient, amount)
+    pub fn transfers(&self) -> Vec<(String, String, u128)> {
+        let mut out = vec![];
+        if let Res::Ok(r) = self {
+            for ev in &r.events {
+                let get = |k: &str| ev.attributes.iter().find(|a| a.key == k).map(|a| a.value.clone());
+                if ev.ty == "transfer" {
+                    if let (Some(to), Some(amount)) = (get("recipient"), get("amount")) {
+                        for c in amount.split(',') {
+                            let digits: String = c.chars().take_while(|ch| ch.is_ascii_digit()).collect();
+                            if let Ok(x) = digits.parse::<u128>() { out.push((c[digits.len()..].to_string(), to.clone(), x)); }
+                        }
+                    }
+                } else if ev.ty == "wasm" && get("action").as_deref() == Some("transfer") {
+                    if let (Some(c), Some(to), Some(x)) = (get("_contract_addr"), get("to"), get("amount").and_then(|x| x.parse::<u128>().ok())) {
+                        out.push((c, to, x));
+                    }
+                }
+            }
+        }
+        out
+    }
     pub fn any_attr(&self, key: &str) -> Option<String> {
         if let Res::Ok(r) = self {
             for ev in &r.events {
